@@ -146,6 +146,7 @@ pub fn c11(ctx: &Ctx) -> Report {
                     _ => "op_remove",
                 });
             }
+            set_case(&req);
             let imp = cache_ops_impl(cap, &ops);
             expect(d, rep, "S11 cache", &req, &imp);
             lru_judge(d, rep, cap, &ops, &imp);
@@ -174,6 +175,7 @@ pub fn c11(ctx: &Ctx) -> Report {
                 let req = format!("cache_ops {} {}", cap, cache_ops_str(&ops));
                 rep.case(&req, true);
                 rep.count("exhaustive_histories");
+                set_case(&req);
                 let imp = cache_ops_impl(cap, &ops);
                 // judged by the Spec on every history, compared with the heap model on a sample
                 if code % 16 == 0 {
